@@ -14,6 +14,7 @@ Decided
   U2  channels.rawInd (read back by the loader as the channel map) = source channel map minus the per-probe offset the merger added,
       the offset starting at 0: an unmerged dataset exports exactly its own channel map
   A1  first dimension of every exported object table (see obligations/shape tables) - decided by the shape engine (C13.A1)
+  +   no table write is skipped because the OUTPUT directory already holds the file (a re-export would keep a stale table)
 Not decided: equality of reloaded values, uint16 range of ids.
 """
 import ast
@@ -424,7 +425,44 @@ def u1_h1(ctx):
         blanked(ctx, repo, fi_, saved_.get(file_, (None, None))[1], 'C13.H1', what_)
 
 
+def a1_regenerated(ctx):
+    """First dimensions agree only if every table of one export is computed from the SAME model state: a table whose write is skipped because the OUTPUT directory
+    already holds a file of that name is stale after a re-export (another curation, `force=True`). A write may be skipped only because the SOURCE directory already
+    provides the file (it is then copied)."""
+    repo = ctx.repo
+    cls = repo.cls(ALF, 'EphysAlfCreator')
+    n_ok, n_und = 0, 0
+    bad = []
+    for m in cls.methods.values():
+        for i in m.nodes(ast.If):
+            tests = [n for n in ast.walk(i.test) if isinstance(n, ast.Call) and q.method_name(n) in ('exists', 'is_file')]
+            if not tests:
+                continue
+            writes = [c for b in (i.body + i.orelse) for c in ast.walk(b) if isinstance(c, ast.Call) and (q.method_name(c) in ('_save_npy',) or dotted(c.func) in ('np.save',))]
+            if not writes:
+                continue
+            for t in tests:
+                px = m.expand(t.func.value)
+                roots = {n.attr for n in ast.walk(px) if isinstance(n, ast.Attribute) and isinstance(n.value, ast.Name) and n.value.id == m.self_name}
+                if 'out_path' in roots and 'dir_path' not in roots:
+                    bad.append((m, i, unparse(px)))
+                elif 'dir_path' in roots and 'out_path' not in roots:
+                    n_ok += 1
+                else:
+                    n_und += 1
+    if bad:
+        m, i, txt = bad[0]
+        ctx.violated('C13.A1', m, i.test, 'the write of a table is skipped when the OUTPUT directory already holds `%s`: a second export into the same directory (after a merge or split, force=True) keeps the '
+                     'stale table, whose first dimension no longer matches the tables that are rewritten' % txt)
+    elif n_und:
+        ctx.undecided('C13.A1', ALF + ':EphysAlfCreator', 'an existence test guarding a table write is on a path that is neither the source nor the output directory')
+    else:
+        ctx.holds('C13.A1', ALF + ':EphysAlfCreator', 'no table write is skipped because of a file in the output directory (%d existence tests, all on the source directory): every export rewrites its tables from the current model' % n_ok,
+                  'table writes')
+
+
 def run(ctx):
+    ctx.part('C13.A1', a1_regenerated)
     f, sites = f1_effects(ctx)
     p1_guard(ctx, f, sites)
     t1_names(ctx)
